@@ -21,7 +21,9 @@ type scen struct {
 	name string
 	v13  bool
 	cid  int
-	ops  string // a,b = Write from two goroutines; x = Close; r = peer's last handshake datagram arrives again
+	ops  string // a,b = Write from two goroutines; x = Close; r = peer's last handshake datagram arrives again;
+	// m = a fresh genuine record of the peer arrives from a NEW address (connection IDs + return routability
+	// check: the read loop answers with a path_challenge, a record numbered and emitted outside Write)
 }
 
 func mkVariant(v13 bool, cid int) checks.Variant {
@@ -77,6 +79,30 @@ func c09Scenario(t *testing.T, p *world.PKI, sc scen, clientSends bool, seed uin
 					peerLast = d.Data
 				}
 			}
+			var migrate []byte
+			if strings.Contains(sc.ops, "m") {
+				pw := w.Go("PeerWrite", func(*world.Op) error { _, e := rcv.Conn.Write([]byte("from-a-new-address")); return e })
+				w.Settle()
+				for _, d := range w.InFlight() {
+					if d.Src == rcv.Addr {
+						migrate = d.Data
+						w.Take(d)
+					}
+				}
+				if !pw.OK() || migrate == nil {
+					viol = "HARNESS: no peer record to re-source"
+					return
+				}
+				// somebody reads on the sender, so that its read loop is never held up by the application queue
+				w.Go("Reader", func(*world.Op) error {
+					b := make([]byte, 256)
+					for {
+						if _, e := snd.Conn.Read(b); e != nil {
+							return e
+						}
+					}
+				})
+			}
 			w.Settle()
 			w.NoSkew = true
 			x.Start()
@@ -91,6 +117,8 @@ func c09Scenario(t *testing.T, p *world.PKI, sc scen, clientSends bool, seed uin
 					ops = append(ops, w.Go("Close", func(*world.Op) error { return snd.Conn.Close() }))
 				case 'r':
 					w.Push(rcv.Addr, snd.Addr, peerLast)
+				case 'm':
+					w.Push(world.Addr("10.0.0.77:7777"), snd.Addr, migrate)
 				}
 			}
 			x.Drive()
@@ -143,6 +171,7 @@ func TestC09E2(t *testing.T) {
 	scens := []scen{
 		{"12/ab", false, 0, "ab"}, {"12/abc", false, 0, "abc"}, {"12/ax", false, 0, "ax"}, {"12/ar", false, 0, "ar"}, {"12/abr", false, 0, "abr"},
 		{"12cid/ab", false, 4, "ab"}, {"12cid/ax", false, 4, "ax"},
+		{"12cid/am", false, 4, "am"}, {"12cid/ma", false, 4, "ma"}, {"13cid/am", true, 4, "am"},
 		{"13/ab", true, 0, "ab"}, {"13/ax", true, 0, "ax"}, {"13/abc", true, 0, "abc"},
 	}
 	var cases []run.Case
@@ -164,7 +193,7 @@ func TestC09E2(t *testing.T) {
 			cases = append(cases, run.Case{ID: fmt.Sprintf("e2/%s/%s/b%d", sc.name, side, bound), Run: func(t *testing.T) run.Outcome {
 				res := Explore(bound, maxExec, c09Scenario(t, p, sc, clientSends, env.Seed+1))
 				o := run.Outcome{Incomplete: res.Capped, NonTrivial: res.Executions > 1, Evals: res.Executions, Distinct: len(res.Outcomes),
-					Class: fmt.Sprintf("schedules=%s outcomes=%d capped=%v", bucket(res.Executions), len(res.Outcomes), res.Capped),
+					Class:    fmt.Sprintf("schedules=%s outcomes=%d capped=%v", bucket(res.Executions), len(res.Outcomes), res.Capped),
 					Counters: map[string]int{"e2_executions": res.Executions, "e2_max_sched_points": res.MaxSteps, "e2_distinct_emission_orders": len(res.Outcomes)},
 					Sample:   map[string]any{"scenario": sc.name, "side": side, "preemption_bound": bound, "schedules": res.Executions, "max_scheduling_points": res.MaxSteps, "distinct_emission_orders": len(res.Outcomes)}}
 				if res.Violation != "" {
